@@ -1361,7 +1361,21 @@ class Executor:
         raise Unsupported('go statement')
 
     def op_TypeAssert(self, fn, ins, env, st):
-        raise Unsupported('type assert')
+        x = self.operand(ins['x'], env)
+        at = ins['asserted']
+        if self.p.T(at)['k'] == 'iface':
+            raise Unsupported('type assert to interface')
+        if isinstance(x, Union):
+            raise Unsupported('type assert on union')
+        ok = x is not None and x.typ == at
+        if ins.get('commaok'):
+            env[ins['name']] = ((x.val if ok else self.zero(at)), ok)
+            return st
+        if not ok:
+            self.oblige(st, 'panic', 'type assertion failed', ins.get('pos'), False)
+            return None
+        env[ins['name']] = x.val
+        return st
 
     def resolve_call(self, c, env, st, pos):
         args = [self.operand(a, env) for a in c['args']]
